@@ -26,6 +26,7 @@ import (
 	"path/filepath"
 	"sort"
 	"strconv"
+	"strings"
 	"time"
 
 	"github.com/skycoin/skycoin/src/cipher"
@@ -163,7 +164,15 @@ func startNode(dir string, c *chain, blocksRequestRate time.Duration) *node {
 	if err != nil {
 		log.Fatal(err)
 	}
-	v, err := visor.New(c.cfg, db, nil)
+	// every third node is itself configured as a block publisher (a standby or restarted publisher catching up from its
+	// peers): what it is sent is judged by the same rules; its own block-making timer never fires here
+	vcfg := c.cfg
+	if rng.Intn(3) == 0 {
+		vcfg.IsBlockPublisher = true
+		vcfg.BlockchainSeckey = c.sec
+		vcfg.Arbitrating = rng.Intn(2) == 0
+	}
+	v, err := visor.New(vcfg, db, nil)
 	if err != nil {
 		log.Fatal(err)
 	}
@@ -186,6 +195,7 @@ func startNode(dir string, c *chain, blocksRequestRate time.Duration) *node {
 	dc.Daemon.UnconfirmedRefreshRate, dc.Daemon.UnconfirmedRemoveInvalidRate = hours, hours
 	dc.Daemon.FlushAnnouncedTxnsRate, dc.Daemon.CullInvalidRate = hours, hours
 	dc.Daemon.IntroductionWait = 30 * time.Second
+	dc.Daemon.BlockCreationInterval = 360000 // seconds
 	dc.Daemon.IPCountsMax = 1000
 	dc.Daemon.UnconfirmedVerifyTxn = params.UserVerifyTxn
 	dc.Daemon.MaxBlockTransactionsSize = c.cfg.MaxBlockTransactionsSize
@@ -680,8 +690,39 @@ func runIntro(dir string, c *chain, count int) {
 			ua = []string{"", "skycoin", "skycoin:x.y.z", ":0.27.0", "skycoin:0.27", "skycoin:0.25.01", "skycoin:01.2.3", "skycoin:0.027.0"}[rng.Intn(8)]
 			f["uaValid"] = false
 		}
+		switch rng.Intn(16) {
+		case 0:
+			// characters that sanitising removes, scattered through a valid agent: still valid, as long as the field fits
+			if f["uaValid"].(bool) {
+				junk := []string{"<", ">", "&", "\"", "'", "#", "@", "|", "{", "}", "`", "\x01", "\x7f", "\xc3\xa9"}
+				b := ""
+				for _, ch := range ua {
+					if rng.Intn(3) == 0 {
+						b += junk[rng.Intn(len(junk))]
+					}
+					b += string(ch)
+				}
+				ua = b
+			}
+		case 1:
+			// the field's length at its limit of 256 bytes: a remark pads a valid agent to 255 / 256 (fits), 257 / 300 (does not)
+			if f["uaValid"].(bool) {
+				total := []int{255, 256, 257, 300}[rng.Intn(4)]
+				ua = "skycoin:0.27.0(" + strings.Repeat("r", total-len("skycoin:0.27.0()")) + ")"
+				f["uaFits"] = total <= 256
+			}
+		case 2:
+			// too long as sent, although what remains after sanitising would be a valid agent of ordinary length
+			if f["uaValid"].(bool) {
+				ua = ua + strings.Repeat([]string{"<", "\x01", "#"}[rng.Intn(3)], 257+rng.Intn(400))
+				if rng.Intn(2) == 0 {
+					ua = strings.Repeat("@", 300) + "skycoin:0.27.0"
+				}
+				f["uaFits"] = false
+			}
+		}
 		uab := encoder.SerializeString(ua)
-		if rng.Intn(10) == 0 {
+		if f["uaFits"].(bool) && rng.Intn(10) == 0 {
 			// the length prefix of the user agent promises more bytes than follow, or more than the maximum
 			if rng.Intn(2) == 0 {
 				binary.LittleEndian.PutUint32(uab, uint32(len(ua)+1+rng.Intn(300)))
